@@ -231,7 +231,7 @@ def end_to_end(v):
             v.violation(f'narrowed rekey answer: {ex}', {}, signature={'component': 'e2e:escape'})
         finally:
             w.close()
-    for name in ('widen tsr', 'widen tsi', 'drop transport mode', 'add transport mode'):
+    for name in ('widen tsr', 'widen tsi', 'drop transport mode', 'add transport mode', 'two tsr, the wide one first', 'two tsi, the wide one first'):
         for stage in ('auth', 'child'):
             mode = 'tunnel' if name == 'add transport mode' else 'transport'
             w = wd.World(seed=common.SEED, opts={'mode': mode})
@@ -249,6 +249,9 @@ def end_to_end(v):
                     p = dict(p)
                     if p['t'] == (W.TSR if name == 'widen tsr' else W.TSI) and name.startswith('widen'):
                         p['ts'] = [dict(p['ts'][0], saddr=bytes([192, 168, 0, 0]), eaddr=bytes([192, 168, 0, 255]))]
+                    if p['t'] == (W.TSR if 'tsr' in name else W.TSI) and name.startswith('two'):
+                        # a list of two selectors: what is installed is the first one - it is the first one that must lie inside what was proposed
+                        p['ts'] = [dict(p['ts'][0], saddr=bytes([0, 0, 0, 0]), eaddr=bytes([255, 255, 255, 255]), sport=0, eport=65535), p['ts'][0]]
                     if name == 'drop transport mode' and p['t'] == W.NOTIFY and p['ntype'] == 16391:
                         continue
                     inner.append(p)
